@@ -164,3 +164,15 @@ PROPS["C12"] = dict(
     rule=_DECODE_RULE + "Non-trivial = the N-best list holds >= 2 distinct word sequences; distinct = distinct case text.",
     assumptions=["the per-link term (ascr<<10)*ascale is computed with the same float expression as the library; only log-add rounding is bounded"],
 )
+
+PROPS["C14"] = dict(
+    harness="decode",
+    level="exploration",
+    technique="property-based testing with a strict RFC 8259 parser as validity oracle, allocator-size equality for the buffer clause, and field-by-field differential against the hypothesis / segmentation / alignment iterators formatted with the same %.3f",
+    level_text="decoder_result_json is requested at partial points and at the end of generated decodes, for levels 0/1/2, start offsets {0, large fractional, tiny, negative}, frame rates {100, 50, 125} and a dictionary extended with spellings containing quotes, backslashes, control characters, multi-byte UTF-8 and a 200-byte word; the text must parse as exactly one JSON object plus one newline, be exactly as long as its allocation (sanitizer allocator query), and every b/d/p/t field and nested list must equal what the iterators report.",
+    level_note="Trusted: json.h parser, __sanitizer_get_allocated_size, snprintf %.3f. Bytes that are not valid UTF-8 are not generated (no JSON text can carry them).",
+    quick=dict(cases=200, maxlen=600, budget=100),
+    thorough=dict(cases=5000, maxlen=600, budget=1200),
+    rule=_DECODE_RULE + "Decoders additionally: hostile-spelling dictionary at frame rates 100/50/125 with FSG or alignment-text grammars over those spellings; JSON level 0/1/2 and start offset per case. Non-trivial = a JSON result with >= 2 word entries; distinct = distinct case text.",
+    assumptions=["word spellings are valid UTF-8 without whitespace (the dictionary format cannot carry whitespace)"],
+)
